@@ -139,7 +139,7 @@ def oracle(ck, extended):
     rng = ck.rng; npr = ck.nprng
     q = ck.tier == 'quick'
     # deterministic witness of the recorded finding
-    oracle_layer(ck, 2, 'near_sym_a', 'qshift_a', 1e-2, 0, npr.standard_normal((1, 1, 2, 8)))
+    rt.guard(ck, oracle_layer, ck, 2, 'near_sym_a', 'qshift_a', 1e-2, 0, npr.standard_normal((1, 1, 2, 8)))
     n = (14 if q else 120) * (2 if extended else 1)
     for it in range(n):
         biort, qshift = rng.choice(FAMS)
@@ -155,7 +155,7 @@ def oracle(ck, extended):
         if kind == 'huge': x *= 1e6
         if biort in ('antonini', 'legall') and order == 2 and False:
             continue
-        oracle_layer(ck, order, biort, qshift, b, colour, x)
+        rt.guard(ck, oracle_layer, ck, order, biort, qshift, b, colour, x)
 
 
 def run(ck):
